@@ -108,8 +108,10 @@ func mergeConfigDict(opts *options, to, from *Config) Error {
 	}
 
 	ok := false
+	var replaced map[string]value
 	if opts.configValueHandling == cfgReplaceValue {
 		old := to.fields.dict()
+		replaced = old
 		to.fields.d = nil
 		defer func() {
 			if !ok {
@@ -134,9 +136,17 @@ func mergeConfigDict(opts *options, to, from *Config) Error {
 			return err
 		}
 
+		// (what is stored is a copy: a handle to the old value is no longer
+		// a part of to)
+		detach(to, old)
 		to.fields.set(k, merged.cpy(ctx))
 	}
 
+	if opts.configValueHandling == cfgReplaceValue {
+		for _, v := range replaced {
+			detach(to, v)
+		}
+	}
 	ok = true
 	return nil
 }
@@ -176,6 +186,9 @@ func mergeConfigReplaceArr(opts *options, to, from *Config) Error {
 		a: make([]value, 0, len(a)),
 	}
 	fields.append(parent, a)
+	for _, v := range to.fields.array() {
+		detach(to, v)
+	}
 	*to.fields = fields
 	return nil
 }
@@ -206,6 +219,7 @@ func mergeConfigMergeArr(opts *options, to, from *Config) Error {
 		if err != nil {
 			return err
 		}
+		detach(to, old)
 		to.fields.setAt(i, parent, merged.cpy(ctx))
 	}
 
@@ -230,6 +244,9 @@ func mergeConfigPrependArr(opts *options, to, from *Config) Error {
 	}
 	fields.append(parent, a2)
 	fields.append(parent, a1)
+	for _, v := range a1 {
+		detach(to, v)
+	}
 	*to.fields = fields
 	return nil
 }
